@@ -10,6 +10,7 @@ import (
 	"fmt"
 	"os"
 	"sort"
+	"strings"
 	"sync/atomic"
 	"syscall"
 	"time"
@@ -23,19 +24,19 @@ import (
 )
 
 type WriterArgs struct {
-	Dir    string `json:"dir"`
-	Name   string `json:"name"`
-	Seed   uint64 `json:"seed"`
-	Ops    int    `json:"ops"`
-	Point  string `json:"point"` // hook point at which to SIGKILL ("" = never)
-	Nth    int    `json:"nth"`
-	Clock  uint64 `json:"clock"`  // fixed physical clock (ns) for the process-global HLC; 0 = system clock
-	Expiry uint32 `json:"expiry"` // if non-zero: relative expiry (seconds) of the document "expiring" written first
-	Clean  bool   `json:"clean"`  // close the bucket cleanly at the end
-	DropY  bool   `json:"dropY"`  // drop collection 2 after writing to it (its lastCas disappears with it)
-	SleepAtEnd int `json:"sleepAtEnd"` // ms to idle at the end (external kill window)
+	Dir        string `json:"dir"`
+	Name       string `json:"name"`
+	Seed       uint64 `json:"seed"`
+	Ops        int    `json:"ops"`
+	Point      string `json:"point"` // hook point at which to SIGKILL ("" = never)
+	Nth        int    `json:"nth"`
+	Clock      uint64 `json:"clock"`      // fixed physical clock (ns) for the process-global HLC; 0 = system clock
+	Expiry     uint32 `json:"expiry"`     // if non-zero: relative expiry (seconds) of the document "expiring" written first
+	Clean      bool   `json:"clean"`      // close the bucket cleanly at the end
+	DropY      bool   `json:"dropY"`      // drop collection 2 after writing to it (its lastCas disappears with it)
+	SleepAtEnd int    `json:"sleepAtEnd"` // ms to idle at the end (external kill window)
 	EndMeta    bool   `json:"endMeta"`    // last write: a SetWithMeta / DeleteWithMeta carrying an old CAS into a collection that saw no other write
-	Profile    string `json:"profile"` // "" = every entry point; "withmeta" = SetWithMeta/DeleteWithMeta (multi-statement transactions) with a few plain writes
+	Profile    string `json:"profile"`    // "" = every entry point; "withmeta" = SetWithMeta/DeleteWithMeta (multi-statement transactions) with a few plain writes
 }
 
 type IntentLine struct {
@@ -48,6 +49,7 @@ type IntentLine struct {
 type AdminState struct {
 	DDocs map[string]string `json:"ddocs"`
 	Colls []string          `json:"colls"`
+	Fill  map[string]int    `json:"fill,omitempty"` // admin-created collection -> number of filler documents written into it
 }
 
 type AdminLine struct {
@@ -70,9 +72,12 @@ func ddocJSON(d *sgbucket.DesignDoc) string {
 }
 
 func (a AdminState) clone() AdminState {
-	n := AdminState{DDocs: map[string]string{}, Colls: append([]string(nil), a.Colls...)}
+	n := AdminState{DDocs: map[string]string{}, Colls: append([]string(nil), a.Colls...), Fill: map[string]int{}}
 	for k, v := range a.DDocs {
 		n.DDocs[k] = v
+	}
+	for k, v := range a.Fill {
+		n.Fill[k] = v
 	}
 	sort.Strings(n.Colls)
 	return n
@@ -167,7 +172,33 @@ func WriterMain(arg string) int {
 		next := admin.clone()
 		kind := ""
 		var run func() error
-		switch r.Intn(4) {
+		choice := r.Intn(6)
+		if a.Profile == "dropcycle" {
+			// create, fill, fill, fill, drop, ... : most commits belong to the life of a populated collection
+			choice = []int{3, 4, 4, 4, 3}[(adminN-1)%5]
+		}
+		var fillable []string
+		for _, c := range admin.Colls {
+			if strings.HasPrefix(c, "adm.") {
+				fillable = append(fillable, c)
+			}
+		}
+		if choice >= 4 && len(fillable) == 0 {
+			choice = 3
+		}
+		switch choice {
+		case 4, 5:
+			full := fillable[r.Intn(len(fillable))]
+			n := admin.Fill[full]
+			kind = "FillDataStore"
+			next.Fill[full] = n + 1
+			run = func() error {
+				ds, err := b.NamedDataStore(sgbucket.DataStoreNameImpl{Scope: "adm", Collection: strings.TrimPrefix(full, "adm.")})
+				if err != nil {
+					return err
+				}
+				return ds.SetRaw(fmt.Sprintf("fill%d", n), 0, nil, []byte("filler"))
+			}
 		case 0, 1:
 			dd := adminDDocs[r.Intn(len(adminDDocs))]
 			kind = "PutDDoc"
@@ -182,6 +213,9 @@ func WriterMain(arg string) int {
 			run = func() error { return col0.DeleteDDoc("adm") }
 		default:
 			name := sgbucket.DataStoreNameImpl{Scope: "adm", Collection: fmt.Sprintf("c%d", adminN%2)}
+			if a.Profile == "dropcycle" {
+				name.Collection = "c0"
+			}
 			full := name.Scope + "." + name.Collection
 			present := false
 			for _, c := range admin.Colls {
@@ -198,6 +232,7 @@ func WriterMain(arg string) int {
 					}
 				}
 				next.Colls = keep
+				delete(next.Fill, full)
 				run = func() error { return b.DropDataStore(name) }
 			} else {
 				kind = "CreateDataStore"
@@ -232,8 +267,12 @@ func WriterMain(arg string) int {
 			op.CbExp = &e
 		}
 		sim.Do(op)
-		if a.Profile == "admin" || (a.Profile == "" && i%6 == 5) {
+		if a.Profile == "admin" || a.Profile == "dropcycle" || (a.Profile == "" && i%6 == 5) {
 			doAdmin()
+			if a.Profile == "dropcycle" {
+				doAdmin()
+				doAdmin()
+			}
 		}
 		if i%5 == 4 || a.Seed%2 == 0 || a.Profile == "withmeta" {
 			// bring the view index up to date (after every call in half of the histories), so that a crash which
@@ -287,30 +326,31 @@ func nullCtx(c *sup.Ctx) { sup.InitNullCtx(c) }
 // ---------------------------------------------------------------- reader
 
 type ReaderArgs struct {
-	Dir      string   `json:"dir"`
-	Name     string   `json:"name"`
-	Mode     int      `json:"mode"` // rosmar.OpenMode
-	Clock    uint64   `json:"clock"`
-	Keys     []string `json:"keys"`
-	Colls    int      `json:"colls"`
-	WaitExp  int      `json:"waitExp"` // ms to keep polling the "expiring" documents
-	NewWrites int     `json:"newWrites"`
+	Dir       string   `json:"dir"`
+	Name      string   `json:"name"`
+	Mode      int      `json:"mode"` // rosmar.OpenMode
+	Clock     uint64   `json:"clock"`
+	Keys      []string `json:"keys"`
+	Colls     int      `json:"colls"`
+	WaitExp   int      `json:"waitExp"` // ms to keep polling the "expiring" documents
+	NewWrites int      `json:"newWrites"`
 }
 
 type ReaderOut struct {
-	Err      string              `json:"err,omitempty"`
-	UUID     string              `json:"uuid"`
-	Colls    []string            `json:"colls"`
-	DDocs    []string            `json:"ddocs"`
-	DDocDefs map[string]string   `json:"ddocDefs"`
-	Docs     map[string]kv.Obs   `json:"docs"` // "c<coll>/<key>"
-	ViewAll  []string            `json:"viewAll"`
-	ViewErr  string              `json:"viewErr,omitempty"`
-	NewCas   []uint64            `json:"newCas"`
-	ExpGoneMs map[string]int64   `json:"expGoneMs"` // ms after open at which "expiring" became unreadable (-1: still readable)
-	ExpEvents int                `json:"expEvents"`
-	ExpAbs   map[string]uint32   `json:"expAbs"`
-	OpenedAt int64               `json:"openedAtUnixMs"`
+	Err       string            `json:"err,omitempty"`
+	UUID      string            `json:"uuid"`
+	Colls     []string          `json:"colls"`
+	DDocs     []string          `json:"ddocs"`
+	DDocDefs  map[string]string `json:"ddocDefs"`
+	Docs      map[string]kv.Obs `json:"docs"` // "c<coll>/<key>"
+	ViewAll   []string          `json:"viewAll"`
+	ViewErr   string            `json:"viewErr,omitempty"`
+	NewCas    []uint64          `json:"newCas"`
+	ExpGoneMs map[string]int64  `json:"expGoneMs"` // ms after open at which "expiring" became unreadable (-1: still readable)
+	ExpEvents int               `json:"expEvents"`
+	ExpAbs    map[string]uint32 `json:"expAbs"`
+	OpenedAt  int64             `json:"openedAtUnixMs"`
+	AdminFill map[string]int    `json:"adminFill"` // admin-created collection -> filler documents readable after reopen
 }
 
 // ReaderMain is the body of `vcheck crashreader <json>`: a fresh process reopens the bucket and dumps what it sees.
@@ -341,6 +381,23 @@ func ReaderMain(arg string) int {
 	list, _ := b.ListDataStores()
 	for _, n := range list {
 		out.Colls = append(out.Colls, n.ScopeName()+"."+n.CollectionName())
+	}
+	out.AdminFill = map[string]int{}
+	for _, n := range list {
+		if n.ScopeName() != "adm" {
+			continue
+		}
+		ds, derr := b.NamedDataStore(n)
+		if derr != nil {
+			continue
+		}
+		cnt := 0
+		for i := 0; i < 40; i++ {
+			if _, _, gerr := ds.GetRaw(fmt.Sprintf("fill%d", i)); gerr == nil {
+				cnt++
+			}
+		}
+		out.AdminFill[n.ScopeName()+"."+n.CollectionName()] = cnt
 	}
 	var cols []*rosmar.Collection
 	for ci := 0; ci < a.Colls; ci++ {
